@@ -40,7 +40,7 @@ LEAN_TARGETS = ["Ipv8.C08.Props"]
 PROPS_FILE = "Ipv8/C08/Props.lean"
 DRIVER = "drv_c08"
 RULE = ("scenario = (hop count 1..3, attacked position, attacker kind {network on a plaintext link, malicious relay, "
-        "other responder}, manipulation, follow-up {none, genuine after, genuine before}) enumerated as a cross product "
+        "other responder}, manipulation, follow-up {none, genuine after, genuine before, forged twice}) enumerated as a cross product "
         "plus replays of all handshake cells before/after cache expiry, late answers at the relay after a retry, "
         "API re-targets of a pending hop, rewritten/forged CREATEs (incl. towards the originator under its own id), a next "
         "hop squatting on the relay's outgoing circuit id, several nodes originating at once, required exits on "
@@ -64,7 +64,12 @@ ASSUMPTIONS = [
     "fresh ephemerals/identifiers: the originator draws a new ephemeral per attempt (checked on every run: "
     "a repeated ephemeral is reported as a correspondence disagreement)",
     "16-bit identifier collisions are inputs of the model (theorems cover them through the MAC check)",
-    "joined-side stability (Props section 6) is about the eleven modelled events; explicit removals of exit sockets / "
+    "JoinTimely / RunTimely (hypothesis of the joined_*_partial theorems, only for the `.join` event = a join_circuit "
+    "resumed after an overridden, suspending should_join_circuit): the id is not taken while the join is suspended. NOT "
+    "guaranteed by the code and falsifiable by the next hop (CREATE under the relay's reserved outgoing id); the Python "
+    "endpoint stays functional in that state because process_cell serves relay routes before exit sockets (trusted, "
+    "exercised by scenario id-squat/suspended, counted as state:id-is-exit-socket-and-relay-route)",
+    "joined-side stability (Props section 6) is about the modelled events of `Ev` (twelve); explicit removals of exit sockets / "
     "relay routes (destroy, inactivity sweep, unload) are not events of this model (C05/C09/C11)",
     "a node that also relays: the .created rejection theorems assume its CreateRequestCache does not claim the "
     "identifier (the relay branch of on_created is tried first); accept_requires needs no such assumption",
@@ -324,6 +329,8 @@ class World:
         self.gated = set()       # nodes whose should_join_circuit (documented override hook) really suspends
         self.gates = []          # (node idx, future) of joins suspended in that hook, oldest first
         self.joins = []          # join_circuit invocations during the current step: (idx, create payload)
+        self.adversaries = set()
+        self.squatter_on_path = False   # a hop of the victim circuit misbehaves itself (it may then drop traffic at will)
         self.tampered = False    # the harness altered / forged / redirected something (else: delays, drops, replays only)
         self.slice = 5.0   # recomputed from the nodes' settings below
         self.sym = Sym(self.rt, self.OpenSSLSK)
@@ -363,8 +370,10 @@ class World:
         from ipv8.requestcache import NumberCache
         self.life_retry = float(self.nodes[0].overlay.settings.next_hop_timeout)
         self.life_created = max(float(n.overlay.settings.unstable_timeout) for n in self.nodes)
-        self.life_create = float(NumberCache.timeout_delay.fget(None)) if isinstance(NumberCache.timeout_delay, property) \
-            else 10.0
+        try:
+            self.life_create = float(NumberCache.timeout_delay.fget(None))
+        except Exception:  # noqa: BLE001  (a getter that needs an instance: fall back to the documented default)
+            self.life_create = 10.0
         self.slice = 0.45 * min(self.life_retry, self.life_created, self.life_create)
         self.prefix = self.nodes[0].overlay.get_prefix()
         self.addr_idx = {}
@@ -634,10 +643,8 @@ class World:
                 continue
             new = list(c.hops)
             # O1: established hops never change
-            if len(new) < len(old) or any(new[i] is not o[0] or new[i].peer is not o[1] or new[i].keys is not o[2]
-                                          or (new[i].keys.key_forward, new[i].keys.key_backward,
-                                              new[i].keys.salt_forward, new[i].keys.salt_backward) != o[3]
-                                          for i, o in enumerate(old)):
+            if len(new) < len(old) or any(new[i].peer.public_key.key_to_bin() != o[1].public_key.key_to_bin()
+                                          or self._fp(new[i].keys) != o[3] for i, o in enumerate(old)):
                 ctx.oracle_fail("Circuit.hops:established-hop-changed",
                                 f"an already established hop of circuit {cid} was changed or removed",
                                 self.replay_of("established hop changed"))
@@ -774,6 +781,13 @@ class World:
             n = k
         return n
 
+    def count_overlaps(self):
+        for n in self.nodes[1:]:
+            ov = n.overlay
+            if any(i in ov.exit_sockets for i in ov.relay_from_to):
+                self.ctx.count("state:id-is-exit-socket-and-relay-route")
+                return
+
     def link_oracle(self):
         """after EVERY step, for every hop established by a genuine exchange: the responder end still holds the same
         keys as the originator, and the relay in front of it still routes the hop to the selected node"""
@@ -813,8 +827,11 @@ class World:
         ctx = self.ctx
         ov = self.nodes[0].overlay
         await self.flush()
+        self.count_overlaps()
         for cid, c in list(ov.circuits.items()):
             if c.state != self.tn.CIRCUIT_STATE_READY or self.well_formed(cid, c) != len(c.hops) or not c.hops:
+                continue
+            if self.squatter_on_path:
                 continue
             fut = ov.send_test_request(c, 8, 8)
             await self.settle()
@@ -838,6 +855,9 @@ class World:
 
     # ---- steps ---------------------------------------------------------------------------------------------
     def _record(self, line, expected):
+        # a node the scenario turned into an adversary by poking its tables (outside any API) is not code under test
+        if line.split(" ", 1)[0].isdigit() and int(line.split(" ", 1)[0]) in self.adversaries:
+            expected = None
         self.lines.append(line)
         self.expect.append(expected)
 
@@ -879,6 +899,10 @@ class World:
                 line = (f"{idx} onextend {p.circuit_id} {p.identifier} {self.sym.static_of_bin(p.node_public_key)} "
                         f"{self.sym.wire_s(p.key)} {ag} {to_cid} {number}")
                 self.ctx.count("handler:on_extend:" + ("forwarded" if emitted else "ignored"))
+                cc = self.nodes[idx].overlay.request_cache.get("created", p.circuit_id)
+                if cc is not None:
+                    self.ctx.count("extend:" + ("cached-candidate" if p.node_public_key in cc.candidates
+                                                else ("address-given" if ag else "unknown-key-no-address")))
             else:
                 op = "created" if mid == 3 else "extended"
                 self.track(idx, [p.circuit_id, p.identifier] if mid == 3 else [p.circuit_id])
@@ -1033,7 +1057,8 @@ class World:
 # manipulations of a plaintext CREATED (cid, ident, key, auth, cands) -> list of variants
 MANIPS = ["key-flip-rand", "key-flip-bit255", "key-flip-bit0", "auth-flip", "cands-flip", "ident-plus1", "ident-rand",
           "cid-rand", "key-short", "key-long", "key-empty", "key-zero", "eph-subst-remac", "eph-subst-keep-auth",
-          "eph-subst-remac-static", "auth-zero", "key-is-own-X", "ident-and-key-flip", "remac-over-canonical"]
+          "eph-subst-remac-static", "auth-zero", "key-is-own-X", "ident-and-key-flip", "remac-over-canonical",
+          "ident-zero", "ident-ffff", "ident-xor-8000"]
 
 
 def flip(b: bytes, bit: int) -> bytes:
@@ -1060,6 +1085,9 @@ def manipulate(w: World, rng, manip: str, created, X: bytes):
         ident = (ident + 1) & 0xFFFF
     elif manip == "ident-rand":
         ident = (ident + rng.randrange(1, 0xFFFF)) & 0xFFFF
+    elif manip in ("ident-zero", "ident-ffff", "ident-xor-8000"):
+        new = {"ident-zero": 0, "ident-ffff": 0xFFFF, "ident-xor-8000": ident ^ 0x8000}[manip]
+        ident = new if new != ident else (ident ^ 1)      # boundary values; never the genuine identifier itself
     elif manip == "cid-rand":
         cid = (cid + rng.randrange(1, 2 ** 32 - 1)) & 0xFFFFFFFF
     elif manip == "key-short":
@@ -1120,6 +1148,15 @@ def pick_required_exit(w: World, rng, exclude=None):
 
 async def start_circuit(w: World, hops: int, required_exit=None, idx: int = 0):
     ov = w.nodes[idx].overlay
+    if w.desc.get("uncached") and hops > 1 and required_exit is None:
+        # the relays do not list the required exit among their candidates (it never introduced its flags to them):
+        # on_extend must take the branch "key not in the cached candidates, address given"
+        required_exit = pick_required_exit(w, w.rng, exclude=idx)
+        for n in w.nodes[1:]:
+            for peer in list(n.overlay.candidates):
+                if peer.public_key.key_to_bin() == required_exit.public_key.key_to_bin():
+                    n.overlay.candidates.pop(peer)
+        w.ctx.count("extend:required-exit-not-cached-at-relays")
     if required_exit is None and hops > 1 and w.desc.get("req"):
         required_exit = pick_required_exit(w, w.rng, exclude=idx)
         w.ctx.count("required-exit:multi-hop")
@@ -1407,7 +1444,15 @@ async def sc_id_squat(ctx, rng, desc, hops, pos, order):
         await run_fifo(w, 80, on_msg)
         if held:
             gen = held[0]
-            a_idx, r_idx, to_cid = gen.from_idx, gen.dst, gen.cid
+            r_idx, to_cid = gen.dst, gen.cid
+            # the squatter read the id off the plaintext CREATE; in half of the runs it is the next hop itself, else a
+            # node that is not on the victim's path (then the victim's hops are all honest and the probe is fair)
+            others = [i for i in range(1, len(w.nodes)) if i not in (r_idx, gen.from_idx)]
+            on_path = desc.get("squatter") == "next-hop"
+            a_idx = gen.from_idx if on_path else rng.choice(others)
+            w.squatter_on_path = on_path
+            if on_path:
+                w.adversaries.add(a_idx)
             aov = w.nodes[a_idx].overlay
             w.tampered = True
             w.track(a_idx, [to_cid])
@@ -1650,6 +1695,9 @@ async def sc_relay(ctx, rng, desc, hops, pos, variant):
                         forged = (from_cid, (ext_ident + 1) & 0xFFFF, key, auth, cands)
                     elif variant == "ident-rand":
                         forged = (from_cid, (ext_ident + rng.randrange(1, 0xFFFF)) & 0xFFFF, key, auth, cands)
+                    elif variant in ("ident-zero", "ident-ffff"):
+                        b = 0 if variant == "ident-zero" else 0xFFFF
+                        forged = (from_cid, b if b != ext_ident else b ^ 1, key, auth, cands)
                     elif variant == "relay-number-as-ident":
                         forged = (from_cid, ident, key, auth, cands)
                     elif variant == "eph-subst-remac":
@@ -1876,7 +1924,8 @@ def scenario_list(ctx: Ctx, tier: str):
         for v in ("swap-cid", "swap-cid-ident", "swap-material"):
             out.append({"k": "cross", "hops": hops, "variant": v})
         for pos in range(2, hops + 1):
-            for v in ("wrong-ident", "ident-rand", "relay-number-as-ident", "eph-subst-remac", "auth-flip",
+            for v in ("wrong-ident", "ident-rand", "ident-zero", "ident-ffff", "relay-number-as-ident",
+                      "eph-subst-remac", "auth-flip",
                       "key-flip-bit255", "premature-dup", "redirect"):
                 out.append({"k": "relay", "hops": hops, "pos": pos, "variant": v})
         out.append({"k": "cipher-noise", "hops": hops})
@@ -1895,6 +1944,11 @@ def scenario_list(ctx: Ctx, tier: str):
         out.append({"k": "two-originators", "hops": hops, "shuffle": False})
         out.append({"k": "two-originators", "hops": hops, "shuffle": True})
         if hops > 1:
+            out.append({"k": "honest", "hops": hops, "uncached": True})
+            out.append({"k": "honest", "hops": hops, "uncached": True, "dup": True})
+            out.append({"k": "late", "hops": hops, "pos": hops, "variant": "as-is", "uncached": True})
+            out.append({"k": "slow-join", "hops": hops, "pos": hops, "variant": "dup-while-suspended", "gated": True,
+                        "uncached": True})
             out.append({"k": "honest", "hops": hops, "req": True})
             out.append({"k": "honest", "hops": hops, "req": True, "shuffle": True})
             out.append({"k": "late", "hops": hops, "pos": hops, "variant": "as-is", "req": True})
@@ -1906,7 +1960,10 @@ def scenario_list(ctx: Ctx, tier: str):
         for pos in range(2, hops + 1):
             for order in ("victim-first", "attacker-first", "squat-only"):
                 out.append({"k": "id-squat", "hops": hops, "pos": pos, "order": order})
+            out.append({"k": "id-squat", "hops": hops, "pos": pos, "order": "victim-first", "squatter": "next-hop"})
             out.append({"k": "id-squat", "hops": hops, "pos": pos, "order": "suspended", "gated": True})
+            out.append({"k": "id-squat", "hops": hops, "pos": pos, "order": "suspended", "gated": True,
+                        "squatter": "next-hop"})
             out.append({"k": "id-squat", "hops": hops, "pos": pos, "order": "victim-first", "gated": True})
         for v in ("creates-only", "to-joined", "all", "shuffled", "early-and-late", "two-circuits"):
             out.append({"k": "replay-expired", "hops": hops, "variant": v})
@@ -1976,12 +2033,17 @@ def run_all(ctx: Ctx, scenarios: list[tuple[dict, int]], use_model: bool):
     mep.AutoMockEndpoint.SEND_INET_EXCEPTION_TO_LOOP = False
     logging.disable(logging.CRITICAL)
     _patch_keygen(OpenSSLSK)
+    from ipv8.messaging.anonymization import caches as _caches
+    _real_secrets = _caches.secrets
     loop = vclock.new_loop()
     all_lines, all_expect, all_desc = [], [], []
     accepts = 0
     untampered = 0
     try:
         for d, sub in scenarios:
+            # packet identifiers (secrets.randbelow in caches.py) are drawn from the scenario's seed: replayable
+            _ids = _random.Random(sub ^ 0x5EED)
+            _caches.secrets = type("SeededSecrets", (), {"randbelow": staticmethod(lambda n, _r=_ids: _r.randrange(n))})
             w = loop.run_until_complete(run_scenario(ctx, d, sub))
             accepts += w.accepts
             untampered += 0 if w.tampered else 1
@@ -1994,6 +2056,7 @@ def run_all(ctx: Ctx, scenarios: list[tuple[dict, int]], use_model: bool):
                 ctx.sample({"scenario": w.desc, "lines": w.lines[7:11], "implementation": w.expect[7:11]})
             del KEYLOG[:]
     finally:
+        _caches.secrets = _real_secrets
         vclock.uninstall()
         _unpatch_keygen()
         logging.disable(logging.NOTSET)
